@@ -91,25 +91,27 @@ def sweep_single(base, limit=60):
     for k in range(limit):
         d = dict(base, faults=[k])
         yield d
-        fired = _fired(G.run_impl(d), k)
+        obs = G.run_impl(d)
         forget_synthetic_classes()
-        if not fired:
-            return
+        if not _fired(obs, k) or obs.get("kind") != "ok":
+            return          # past the last invocation, or a witness that extract() raises: stop sweeping
 
 
 def sweep_pairs(base, limit=40, rng=None, sample=None):
     for k1 in range(limit):
-        fired1 = _fired(G.run_impl(dict(base, faults=[k1])), k1)
+        obs1 = G.run_impl(dict(base, faults=[k1]))
         forget_synthetic_classes()
-        if not fired1:
+        if not _fired(obs1, k1) or obs1.get("kind") != "ok":
             return
         for k2 in range(k1 + 1, limit):
             d = dict(base, faults=[k1, k2])
-            fired = _fired(G.run_impl(d), k2)
+            obs2 = G.run_impl(d)
             forget_synthetic_classes()
-            if sample is None or rng.random() < sample:
+            if sample is None or rng.random() < sample or obs2.get("kind") != "ok":
                 yield d
-            if not fired:
+            if obs2.get("kind") != "ok":
+                return
+            if not _fired(obs2, k2):
                 break
 
 
@@ -177,7 +179,7 @@ def _make_inputs(tier, seed):
         yield from sweep_single(b)
         yield from sweep_pairs(b)
     # random tables, every single fault; pairs on a subset
-    nb = 40 if quick else 300
+    nb = 40 if quick else 400
     for i in range(nb):
         wc = i % 2 == 0
         b = G.gen_case(rng, nf=rng.choice([3, 4, 5]), no=rng.choice([3, 4, 5]), with_ctx=wc, gens=(not wc and i % 3 == 1))
@@ -188,10 +190,10 @@ def _make_inputs(tier, seed):
         if i % (8 if quick else 4) == 0:
             yield from sweep_pairs(b, rng=rng, sample=0.5 if quick else 1.0)
     # random multi-fault sets
-    for _ in range(600 if quick else 6000):
+    for _ in range(600 if quick else 8000):
         yield G.gen_case(rng, nf=5, no=5, faults=rng.randrange(1, 5), **rng.choice([dict(with_ctx=True), dict(with_ctx=True), dict(gens=True), dict()]))
     # small scope of C10 (3 objects x 2 frames, all result alphabets): every single fault, all pairs
-    for b in small_scope(1499 if quick else 97, seed):
+    for b in small_scope(1499 if quick else 41, seed):
         yield from sweep_single(b)
         if not quick:
             yield from sweep_pairs(b)
